@@ -122,6 +122,16 @@ def _registry_writes(ck: Check, prog: Program) -> None:
 
 
 MUTANTS = [
+    dict(name='per-code-handler-chain-cached-in-a-base-class-method', file='pjrpc/server/dispatcher.py',
+         find='    @property\n    def registry(self) -> MethodRegistry:\n        return self._registry\n',
+         replace='    @property\n    def registry(self) -> MethodRegistry:\n        return self._registry\n\n'
+                 '    def _chain_for(self, code: int) -> Any:\n        cache = self.__dict__.setdefault("_chains", {})\n'
+                 '        if code not in cache:\n            cache[code] = it.chain(self._error_handlers.get(None, []), self._error_handlers.get(code, []))\n'
+                 '        self._last_code = code\n        return cache[code]\n',
+         also=[dict(file='pjrpc/server/dispatcher.py', all=True,
+                    find='for error_handler in it.chain(self._error_handlers.get(None, []), self._error_handlers.get(error.code, [])):',
+                    replace='for error_handler in self._chain_for(error.code):')],
+         expect='SHARED-WRITE'),
     dict(name='cache-last-context', file='pjrpc/server/dispatcher.py', nth=0,
          find='        logger.getChild(\'request\').debug("request received: %s", request_text)\n',
          replace='        logger.getChild(\'request\').debug("request received: %s", request_text)\n        self._last_context = context\n',
